@@ -6,11 +6,21 @@ real wire message), the constructor/creator log, and the deterministic-scheduler
 A *history* is   {"classes": [[mode, creator, truth, eq], ...], "nconn": n, "path": "direct"|"request",
                   "events": [["O", c, keep] | ["C", c, k, outcome] | ["X", c]]}
   mode    single | session | percall | invalid | default (not decorated: `register` supplies the default)
-  creator none | callable | falsy            (falsy = a callable object whose truth value is False)
+  creator none | callable[:shape] | falsy    (falsy = a callable object whose truth value is False;
+          shape = how the creator can be called: arg (default, needs the class) | default (clazz=None) | varargs (*args) |
+          partial (functools.partial) | class (the creator is itself a class) — all but `arg` also work with NO argument)
   truth   plain | bool | len                 (how bool(instance) is decided; plain = always truthy)
   eq      default | byclass | alleq          (byclass: __eq__/__hash__ on the eq-class; alleq: __eq__ always True, unhashable)
-  outcome ["ok", t, e] | ["wt", t, e] | ["rs"]   what the constructor / creator does IF it is run for this call
+  outcome ["ok", t, e] | ["wt", t, e] | ["rs"] | ["te"] | ["te1", t, e]
+          what the constructor / creator does IF it is run for this call: ok / returns a foreign object / raises ArithmeticError /
+          raises a TypeError from its own body on every run / raises that TypeError on its FIRST run of this call only (a second
+          run — which correct code never makes — would succeed with (t, e)).  te and te1 are `raises` for the model.
+Several daemons: optional "ndaemon": m (connection c belongs to daemon c % m; every daemon serves the SAME class objects) and
+events ["D", d] = daemon d is shut down and a new Daemon object takes its place (its connections are gone with it).
+`flatten` renames (daemon, generation, class) and (connection, generation) to the plain class / connection numbers of a
+one-daemon history: daemons share nothing, so the model of m daemons is the model of one daemon over disjoint labels.
 """
+import functools
 import threading
 
 import common
@@ -18,6 +28,47 @@ import common
 common.repo_on_path()
 
 FAIL = ArithmeticError          # what user code raises when its outcome is "rs"
+MARK = "c09 user code fails"    # message of the TypeError user code raises from its own body (outcomes te / te1)
+FAILING = ("rs", "te", "te1")   # outcomes under which a (first) run of user code raises
+
+
+def base_creator(creator):
+    return creator.split(":")[0]
+
+
+def flatten(hist):
+    """-> one-daemon history over renamed labels + bookkeeping (identity for a one-daemon history without D events)"""
+    m = hist.get("ndaemon", 1)
+    ncls = len(hist["classes"])
+    nconn = hist["nconn"]
+    cls_info = [(d, 0, k) for d in range(m) for k in range(ncls)]
+    conn_info = [(c, 0) for c in range(nconn)]
+    cls_id = {x: i for i, x in enumerate(cls_info)}
+    conn_id = {x: i for i, x in enumerate(conn_info)}
+    gen = [0] * m
+    events, kept = [], []
+    for j, ev in enumerate(hist["events"]):
+        if ev[0] == "D":
+            d = ev[1]
+            gen[d] += 1
+            for k in range(ncls):
+                cls_id[(d, gen[d], k)] = len(cls_info)
+                cls_info.append((d, gen[d], k))
+            for c in range(nconn):
+                if c % m == d:
+                    conn_id[(c, gen[d])] = len(conn_info)
+                    conn_info.append((c, gen[d]))
+            continue
+        kept.append(j)
+        d = ev[1] % m
+        fc = conn_id[(ev[1], gen[d])]
+        if ev[0] == "C":
+            events.append(["C", fc, cls_id[(d, gen[d], ev[2])], ev[3]])
+        else:
+            events.append([ev[0], fc] + list(ev[2:]))
+    return {"classes": [hist["classes"][k] for _, _, k in cls_info], "nconn": len(conn_info), "events": events,
+            "kept": kept, "cls_info": cls_info, "conn_info": conn_info, "cls_id": cls_id, "conn_id": conn_id,
+            "path": hist.get("path", "direct"), "ndaemon": m}
 
 
 class FakeSock:
@@ -81,14 +132,35 @@ class FalsyCreator:
 class World:
     """one daemon; `new_classes` builds fresh classes (so the daemon's single-table has no entry for them)"""
 
-    def __init__(self):
+    def make_daemon(self):
         from Pyro5 import config, server
         old = config.SERVERTYPE
         config.SERVERTYPE = "multiplex"       # no worker threads needed: requests are handed to handleRequest directly
         try:
-            self.daemon = server.Daemon(host="127.0.0.1", port=0)
+            return server.Daemon(host="127.0.0.1", port=0)
         finally:
             config.SERVERTYPE = old
+
+    @property
+    def daemon(self):
+        return self.daemons[0]
+
+    def ensure_daemons(self, m):
+        while len(self.daemons) < m:
+            self.daemons.append(self.make_daemon())
+
+    def restart_daemon(self, d):
+        """daemon d is shut down for real; a brand-new Daemon object serves in its place"""
+        old = self.daemons[d]
+        old.close()
+        self.dead.append(old)                 # kept referenced: its id() is not recycled, its tables can still be inspected
+        self.daemons[d] = self.make_daemon()
+        self.registered = [(dd, k) for dd, k in self.registered if dd != d]
+
+    def __init__(self):
+        self.daemons = [self.make_daemon()]
+        self.dead = []
+        self.flags = {}            # thread ident -> {"runs": user-code runs during the current call, "via_creator": bool}
         self.sched = None
         self.serial = 0
         self.objects = {}          # serial -> object (keeps every object alive: identities are never recycled)
@@ -101,7 +173,9 @@ class World:
 
     def close(self):
         self.cleanup_classes()
-        self.daemon.close()
+        for d in self.daemons:
+            d.close()
+        self.daemons = []
 
     # ---- objects ---------------------------------------------------------------------------
     def _new_serial(self, obj):
@@ -112,6 +186,20 @@ class World:
 
     def _plan(self):
         return self.plan[threading.get_ident()]
+
+    def _begin_call(self, outcome):
+        me = threading.get_ident()
+        self.plan[me] = outcome
+        self.flags[me] = {"runs": 0, "via_creator": False}
+
+    def _user_code_runs(self):
+        """called at the start of every run of the code that creates (creator, or constructor when no creator is used):
+        raises the TypeError of outcomes te / te1"""
+        f = self.flags[threading.get_ident()]
+        f["runs"] += 1
+        p = self._plan()
+        if p[0] == "te" or (p[0] == "te1" and f["runs"] == 1):
+            raise TypeError(MARK)
 
     def new_classes(self, specs):
         """specs: [mode, creator, truth, eq] per class -> list of class objects (kept in self.classes)"""
@@ -148,6 +236,8 @@ class World:
                 p = world._plan()
                 if p[0] == "rs":
                     raise FAIL("constructor fails")
+                if not world.flags[threading.get_ident()]["via_creator"]:
+                    world._user_code_runs()
                 self._t, self._e = bool(p[1]), p[2]
                 self._serial = world._new_serial(self)
 
@@ -168,17 +258,43 @@ class World:
                 ns["__hash__"] = None
             cls = server.expose(type("K%d" % k, (object,), ns))
             self.creator_calls[k] = 0
-            if creator == "callable":
-                def cr(clazz, _k=k):
+            if base_creator(creator) == "callable":
+                def body(clazz, _k=k):
                     world.creator_calls[_k] += 1
                     if world.sched is not None:
                         world.sched.point(("creator", _k))
                     p = world._plan()
                     if p[0] == "rs":
                         raise FAIL("creator fails")
+                    world._user_code_runs()
                     if p[0] == "wt":
                         return Foreign(bool(p[1]), p[2])
-                    return clazz()
+                    f = world.flags[threading.get_ident()]
+                    f["via_creator"] = True
+                    try:
+                        return (clazz or world.classes[_k])()
+                    finally:
+                        f["via_creator"] = False
+                shape = creator.split(":")[1] if ":" in creator else "arg"
+                if shape == "arg":
+                    def cr(clazz, _body=body):
+                        return _body(clazz)
+                elif shape == "default":
+                    def cr(clazz=None, _body=body):
+                        return _body(clazz)
+                elif shape == "varargs":
+                    def cr(*args, _body=body):
+                        return _body(args[0] if args else None)
+                elif shape == "partial":
+                    def _p(tag, clazz=None, _body=body):
+                        return _body(clazz)
+                    cr = functools.partial(_p, "tag")
+                elif shape == "class":
+                    class cr:                           # calling the class IS the creator call
+                        def __new__(cls, clazz=None, _body=body):
+                            return _body(clazz)
+                else:
+                    raise ValueError(shape)
             elif creator == "falsy":
                 cr = FalsyCreator(world, k)
             else:
@@ -193,24 +309,25 @@ class World:
         self.specs = [list(s) for s in specs]
         return out
 
-    def register(self, k):
-        """daemon.register (supplies the default instancing); idempotent per class"""
+    def register(self, k, d=0):
+        """daemon.register (supplies the default instancing); idempotent per (daemon, class)"""
         cls = self.classes[k]
-        if k not in self.registered:
-            self.daemon.register(cls, "c09obj%d" % k)
-            self.registered.append(k)
+        if (d, k) not in self.registered:
+            self.daemons[d].register(cls, "c09obj%d" % k)
+            self.registered.append((d, k))
         return "c09obj%d" % k
 
     def cleanup_classes(self):
         import serpent
         from Pyro5 import serializers
-        for k in self.registered:
+        for d, k in self.registered:
             try:
-                self.daemon.unregister("c09obj%d" % k)
+                self.daemons[d].unregister("c09obj%d" % k)
             except Exception:
                 pass
         for cls in list(self.classes) + ([self.foreign] if getattr(self, "foreign", None) else []):
-            self.daemon._pyroInstances.pop(cls, None)
+            for dm in self.daemons + self.dead:
+                dm._pyroInstances.pop(cls, None)
             try:
                 serpent.unregister_class(cls)
             except Exception:
@@ -219,22 +336,26 @@ class World:
                 d = getattr(ser, "_%s__type_replacements" % ser.__name__, None)
                 if isinstance(d, dict):
                     d.pop(cls, None)
+        self.dead = []
+        while len(self.daemons) > 3:          # keep a small pool of live daemons between histories
+            self.daemons.pop().close()
         self.classes = []
         self.registered = []
+        self.flags = {}
         self.objects = {}
         self.ctor_log = []
         self.creator_calls = {}
         self.plan = {}
 
     # ---- one call ----------------------------------------------------------------------------
-    def call_direct(self, k, conn, outcome):
+    def call_direct(self, k, conn, outcome, d=0):
         """-> ('S', serial) | ('TE',) | ('RS',) | ('DE',) | ('EXC', name)"""
         from Pyro5 import errors
-        self.plan[threading.get_ident()] = outcome
+        self._begin_call(outcome)
         try:
-            obj = self.daemon._getInstance(self.classes[k], conn)
-        except TypeError:
-            return ("TE",)
+            obj = self.daemons[d]._getInstance(self.classes[k], conn)
+        except TypeError as x:
+            return ("RS",) if MARK in str(x) else ("TE",)
         except FAIL:
             return ("RS",)
         except errors.DaemonError:
@@ -243,18 +364,18 @@ class World:
             return ("EXC", type(x).__name__)
         return ("S", obj.who())
 
-    def call_request(self, k, conn, outcome):
+    def call_request(self, k, conn, outcome, d=0):
         """the same call as a real INVOKE message through Daemon.handleRequest"""
         from Pyro5 import errors, protocol, serializers
-        oid = self.register(k)
-        self.plan[threading.get_ident()] = outcome
+        oid = self.register(k, d)
+        self._begin_call(outcome)
         ser = serializers.serializers["serpent"]
         self.seq = (self.seq + 1) % 65536
         data = ser.dumpsCall(oid, "who", [], {})
         msg = protocol.SendingMessage(protocol.MSG_INVOKE, 0, self.seq, ser.serializer_id, data)
         conn.sock.feed(msg.data)
         del conn.sock.out[:]
-        self.daemon.handleRequest(conn)
+        self.daemons[d].handleRequest(conn)
         from Pyro5 import socketutil
         reply = protocol.recv_stub(socketutil.SocketConnection(FakeSock(bytes(conn.sock.out)), keep_open=True),
                                    [protocol.MSG_RESULT])
@@ -263,7 +384,7 @@ class World:
         val = ser.loads(reply.data)
         if reply.flags & protocol.FLAGS_EXCEPTION:
             if isinstance(val, TypeError):
-                return ("TE",)
+                return ("RS",) if MARK in str(val) else ("TE",)
             if isinstance(val, FAIL):
                 return ("RS",)
             if isinstance(val, errors.DaemonError):
@@ -273,32 +394,49 @@ class World:
 
 
 class HistoryRun:
-    """runs one history on the real code and records what each event observed"""
+    """runs one history on the real code and records what each event observed (one entry per event that is not a "D")"""
 
     def __init__(self, world, hist):
         from Pyro5 import socketutil
         self.world = world
         self.hist = hist
+        self.flat = flatten(hist)
+        self.m = self.flat["ndaemon"]
         self.sc = socketutil.SocketConnection
         world.new_classes(hist["classes"])
-        self.conns = {}
+        world.ensure_daemons(self.m)
+        self.gen = [0] * self.m
+        self.dobj = {(d, 0): world.daemons[d] for d in range(self.m)}     # (daemon, generation) -> Daemon object
+        self.conns = {}            # flat connection id -> SocketConnection
         self.canon = {}            # serial -> order of first appearance among the objects that served
-        self.obs = []              # per event: tuple, see run()
-        for k, s in enumerate(hist["classes"]):
+        self.obs = []
+        self._register_defaults(range(self.m))
+
+    def _register_defaults(self, daemons):
+        for k, s in enumerate(self.hist["classes"]):
             if s[0] == "default":
-                world.register(k)      # `register` is what gives an undecorated class its instancing
+                for d in daemons:
+                    self.world.register(k, d)      # `register` is what gives an undecorated class its instancing
 
     def conn(self, c):
-        if c not in self.conns:
-            self.conns[c] = self.sc(FakeSock(), keep_open=False)
-        return self.conns[c]
+        fc = self.flat["conn_id"][(c, self.gen[c % self.m])]
+        if fc not in self.conns:
+            self.conns[fc] = self.sc(FakeSock(), keep_open=False)
+        return self.conns[fc]
 
     def run(self):
         w = self.world
         path = self.hist.get("path", "direct")
         for ev in self.hist["events"]:
-            if ev[0] == "O":
-                self.conns[ev[1]] = self.sc(FakeSock(), keep_open=bool(ev[2]))
+            if ev[0] == "D":
+                d = ev[1]
+                w.restart_daemon(d)       # the old daemon's connection objects are simply never used again (new labels)
+                self.gen[d] += 1
+                self.dobj[(d, self.gen[d])] = w.daemons[d]
+                self._register_defaults([d])
+            elif ev[0] == "O":
+                fc = self.flat["conn_id"][(ev[1], self.gen[ev[1] % self.m])]
+                self.conns[fc] = self.sc(FakeSock(), keep_open=bool(ev[2]))
                 self.obs.append(("-",))
             elif ev[0] == "X":
                 self.conn(ev[1]).close()
@@ -308,7 +446,7 @@ class HistoryRun:
                 conn = self.conn(c)
                 before_ctor = len(w.ctor_log)
                 before_cc = w.creator_calls[k]
-                r = (w.call_request if path == "request" else w.call_direct)(k, conn, outcome)
+                r = (w.call_request if path == "request" else w.call_direct)(k, conn, outcome, c % self.m)
                 cc = w.creator_calls[k] - before_cc
                 if r[0] == "S":
                     serial = r[1]
@@ -320,18 +458,22 @@ class HistoryRun:
                                      len(w.ctor_log) - before_ctor))
                 elif r[0] == "RS":
                     self.obs.append(("RS", cc))
+                elif r[0] == "TE":
+                    self.obs.append(("TE", cc))
                 else:
                     self.obs.append(r)
         return self.obs
 
     def canonical(self):
-        """the line the model must print"""
+        """the line the model must print for the flattened history"""
         out = []
         for o in self.obs:
             if o[0] == "S":
                 out.append("S%d:%d:%d:%d:%s" % (o[1], o[2], o[3], o[4], o[5] if o[5] in (0, 1) else "cc%d" % o[5]))
             elif o[0] == "RS":
                 out.append("RS%s" % (o[1] if o[1] in (0, 1) else "cc%d" % o[1]))
+            elif o[0] == "TE":
+                out.append("TE" if o[1] == 1 else "TEcc%d" % o[1])
             elif o[0] == "EXC":
                 out.append("EXC:" + o[1])
             else:
@@ -340,16 +482,18 @@ class HistoryRun:
         created = sum(1 for o in self.obs if o[0] == "S" and o[4])
         st = ["n=%d" % created]
         ncls = len(self.hist["classes"])
-        for k in range(ncls):
-            inst = w.daemon._pyroInstances.get(w.classes[k])
+        for fk, (d, g, k) in enumerate(self.flat["cls_info"]):
+            dm = self.dobj.get((d, g))
+            inst = dm._pyroInstances.get(w.classes[k]) if dm is not None else None
             if inst is not None:
-                st.append("s%d=%s" % (k, self.canon.get(inst.who(), "?%d" % inst.who())))
-        for c in range(self.hist["nconn"]):
-            if c in self.conns:
+                st.append("s%d=%s" % (fk, self.canon.get(inst.who(), "?%d" % inst.who())))
+        for fc, (c, g) in enumerate(self.flat["conn_info"]):
+            if fc in self.conns:
                 for k in range(ncls):
-                    inst = self.conns[c].pyroInstances.get(w.classes[k])
+                    inst = self.conns[fc].pyroInstances.get(w.classes[k])
                     if inst is not None:
-                        st.append("c%d.%d=%s" % (c, k, self.canon.get(inst.who(), "?%d" % inst.who())))
+                        st.append("c%d.%d=%s" % (fc, self.flat["cls_id"][(c % self.m, g, k)],
+                                                 self.canon.get(inst.who(), "?%d" % inst.who())))
         return ";".join(out) + " | " + " ".join(st)
 
 
@@ -357,10 +501,12 @@ MODEL_MODE = {"default": "session"}
 
 
 def hist_line(hist):
-    """the driver input line of a history"""
+    """the driver input line of a history (flattened to one daemon)"""
+    if hist.get("ndaemon", 1) > 1 or any(ev[0] == "D" for ev in hist["events"]):
+        hist = flatten(hist)
     toks = ["hist", str(len(hist["classes"]))]
     for mode, creator, truth, eq in hist["classes"]:
-        toks += [MODEL_MODE.get(mode, mode), "none" if mode == "default" else creator]
+        toks += [MODEL_MODE.get(mode, mode), "none" if mode == "default" else base_creator(creator)]
     toks += [str(hist["nconn"]), str(len(hist["events"]))]
     for ev in hist["events"]:
         if ev[0] == "O":
@@ -369,13 +515,17 @@ def hist_line(hist):
             toks += ["X", str(ev[1])]
         else:
             o = ev[3]
-            toks += ["C", str(ev[1]), str(ev[2])] + ([o[0], str(int(o[1])), str(o[2])] if o[0] != "rs" else ["rs"])
+            toks += ["C", str(ev[1]), str(ev[2])] + (["rs"] if o[0] in FAILING else [o[0], str(int(o[1])), str(o[2])])
     return " ".join(toks)
 
 
 # ---- the property itself, judged on the real observations only --------------------------------------
 def judge_history(hist, obs):
-    """returns None or (signature, description).  Uses nothing but what the real code did."""
+    """returns None or (signature, description).  Uses nothing but the history and what the real code did.
+    A history over several daemons is judged in its flattened form: one slot per (daemon object, class)."""
+    if "cls_info" not in hist:
+        hist = flatten(hist)
+    cls_info = hist["cls_info"]
     classes = hist["classes"]
     single = {}            # k -> (serial, truthy)
     sess = {}              # (c, k) -> (serial, truthy)   for the current life of connection label c
@@ -396,10 +546,13 @@ def judge_history(hist, obs):
                     del sess[key]
             continue
         _, c, k, outcome = ev
-        mode, creator = classes[k][0], classes[k][1]
+        mode, creator = classes[k][0], base_creator(classes[k][1])
         if mode == "default":
             mode, creator = "session", "none"
-        where = "event %d (call on class %d %s/%s, connection %d)" % (j, k, mode, creator, c)
+        dd, dg, dk = cls_info[k]
+        where = "event %d (call on class %d %s/%s, connection %d%s)" % (
+            hist["kept"][j], dk, mode, classes[k][1], hist["conn_info"][c][0],
+            ", daemon %d generation %d" % (dd, dg) if hist["ndaemon"] > 1 or dg else "")
         if o[0] == "EXC":
             return ("internal-error:" + o[1], "%s failed with unexpected %s" % (where, o[1]))
         if o[0] == "S":
@@ -424,6 +577,14 @@ def judge_history(hist, obs):
                             "percall": "percall-reused"}[mode if mode in ("single", "session", "percall") else "percall"]
                     if mode == "session" and dropped.get((c, k)) == serial:
                         what = "session-not-dropped"
+                    prev_owner = owner.get(serial)
+                    if mode == "single" and prev_owner and prev_owner[0] == "single" and cls_info[prev_owner[1]][2] == dk \
+                            and cls_info[prev_owner[1]][:2] != (dd, dg):
+                        od, og, _ = cls_info[prev_owner[1]]
+                        return ("single-shared-across-daemons",
+                                "%s was served by instance #%d, the single instance of the same class in %s daemon %d "
+                                "(generation %d): the instance is per process, not per daemon (created=%d, creator calls=%d)"
+                                % (where, serial, "the closed" if od == dd else "another", od, og, created, cc))
                     return (what, "%s was served by instance #%d which already served %r" % (where, serial, owner.get(serial)))
                 if table is not None:
                     table[key] = (serial, bool(t))
@@ -431,15 +592,24 @@ def judge_history(hist, obs):
                 return ("instance-shared", "%s: instance #%d belongs to %r" % (where, serial, owner[serial]))
             owner[serial] = slot
             seen.add(serial)
+            if created and outcome[0] in FAILING:
+                return ("creation-error-hidden",
+                        "%s: the creation attempt of this call fails (outcome %r) but the caller was served by a new instance; "
+                        "user code ran %d time(s), creator invoked %d time(s)" % (where, outcome, nctor, cc))
             if nctor > 1:
                 return ("creator-count", "%s constructed %d objects for one call" % (where, nctor))
             want = 1 if (created and creator == "callable") else 0
             if creator != "falsy" and cc != want:
                 return ("creator-count", "%s: creator invoked %d time(s), expected %d (created=%d)" % (where, cc, want, created))
         elif o[0] == "RS" or o[0] == "TE":
-            cc = o[1] if o[0] == "RS" else None
-            if creator == "callable" and cc is not None and cc != 1:
-                return ("creator-count", "%s: failing creation invoked the creator %d times" % (where, cc))
+            cc = o[1]
+            if creator == "callable" and cc != 1:
+                return ("creator-count", "%s: one failing creation attempt invoked the creator %d times" % (where, cc))
+            if creator == "none" and cc != 0:
+                return ("creator-count", "%s: a creator ran for a class without creator" % where)
+            if outcome[0] in FAILING and o[0] == "TE":
+                return ("creation-error-replaced", "%s: user code raised its own error (outcome %r) but the caller got the "
+                        "daemon's 'different type' TypeError instead" % (where, outcome))
             if o[0] == "TE" and creator != "callable":
                 return ("typeerror-without-creator", "%s raised TypeError without a creator" % where)
         elif o[0] == "DE":
